@@ -236,6 +236,19 @@ func TestVerifC07Request(t *testing.T) {
 				L.Violation(c07Sig("end-to-end-request-header-changed", c), d)
 			}
 		}
+		// nothing is added either, apart from the forwarding headers fabio documents (C08 decides their values)
+		for k, v := range s.Header {
+			if _, sent := want[k]; sent {
+				continue
+			}
+			switch k {
+			case "X-Forwarded-For", "X-Forwarded-Proto", "X-Forwarded-Port", "X-Forwarded-Host", "X-Forwarded-Prefix", "X-Real-Ip", "Forwarded", "Content-Length", "Content-Type":
+				continue
+			}
+			d["header"], d["got_values"] = k, v
+			L.Violation(c07Sig("request-header-added-that-the-client-did-not-send:"+k, c), d)
+			break
+		}
 		wantBody := "ok"
 		if c.method == "HEAD" {
 			wantBody = ""
